@@ -21,7 +21,7 @@ DECIDING = ["C13.merge_step", "C13.delete_step", "C13.history", "C13.cut_and_mer
 RULE = ("histories = (n, storage form, sequence of merge(join lists)/delete(cell list) operations threading the returned index "
         "list). Exhaustive: n<=4 (quick) / n<=5 (thorough), every set partition as join lists, every deletion subset, every "
         "operation sequence of length <=2 / <=3, dense and csr, M0[i,j]=2^(i*n+j). Random: n<=12 with repeated, overlapping, "
-        "permuted, already-merged and already-deleted members, integer matrices (symmetric / zero-row-sum variants), one-shot vs "
+        "permuted, already-merged and already-deleted members, integer matrices (symmetric / zero-row-sum variants) and float matrices spanning 30 orders of magnitude, dense / canonical csr / non-canonical csr (duplicate stored entries, unsorted indices), one-shot vs "
         "step-wise and dense vs csr equivalences, cut_and_merge with all four limit combinations. Non-trivial = history containing "
         "at least one effective merge or delete (matrix shrinks); distinct by digest of the history")
 ASSUMPTIONS = ["index lists are threaded unchanged from one call to the next (the documented use)",
@@ -105,6 +105,7 @@ def model_merge(M, il, all_to_join, strict):
         P[groups[rep], k] = 1
     E = P.T @ M @ P
     new_il = [sorted(c for r in groups[rep] for c in il[r]) for rep in order]
+    model_merge.scale = P.T @ np.abs(M) @ P
     return E, new_il
 
 
@@ -118,8 +119,14 @@ def model_delete(M, il, to_remove):
     return E, [list(il[r]) for r in keep]
 
 
-def same(a, b):
-    return a.shape == b.shape and np.array_equal(a, b) if a.dtype.kind in "iu" else (a.shape == b.shape and np.allclose(a, b, rtol=1e-12, atol=1e-9))
+def same(a, b, scale=None):
+    """equality of lumped matrices; `scale` (same shape) = sum of the absolute values that went into each entry: the rounding error of a sum is
+    bounded by eps * scale, so tiny rates next to huge ones are compared relative to their own magnitude, not to the matrix maximum"""
+    if a.shape != b.shape:
+        return False
+    if scale is None:
+        scale = np.maximum(np.abs(a), np.abs(b))
+    return bool(np.all(np.abs(a - b) <= 1e-12 * scale + 1e-300))
 
 
 def il_eq(a, b):
@@ -150,9 +157,11 @@ def merge_is_exact_lumping(my_matrix, all_to_join, index_list, result, OLD):
         R, il_out = result
         R = dense(R)
         E1, il1 = model_merge(M, il, all_to_join, strict=True)
+        S1 = model_merge.scale
         E2, il2 = model_merge(M, il, all_to_join, strict=False)
-        ok1 = same(R, E1) and il_eq(il_out, il1)
-        ok2 = same(R, E2) and il_eq(il_out, il2)
+        S2 = model_merge.scale
+        ok1 = same(R, E1, S1) and il_eq(il_out, il1)
+        ok2 = same(R, E2, S2) and il_eq(il_out, il2)
         problems = []
         if not (ok1 or ok2):
             problems.append({"result_index_list": il_out, "model_index_list": il1,
@@ -195,11 +204,14 @@ def delete_is_exact_restriction(my_matrix, to_remove, index_list, result, OLD):
         if E.shape[0] == 0:
             REC.skip(mon, "everything deleted: 0x0 result (unspecified)")
             return True
-        if not same(R, E):
+        keep_rows = [r for r, g in enumerate(il) if not set(int(x) for x in to_remove).intersection(g)]
+        rowabs = np.abs(M[np.ix_(keep_rows, keep_rows)]).sum(axis=1) if E.size else None   # the diagonal is d - (d + off): error ~ eps * sum |row|
+        scale = np.abs(E) + np.diag(rowabs) if E.size else None
+        if not same(R, E, scale):
             problems.append({"result": R, "model": E})
         if not il_eq(il_out, il_e):
             problems.append({"result_index_list": il_out, "model_index_list": il_e})
-        if R.size and not np.allclose(R.sum(axis=1), 0, atol=1e-9 * max(1.0, np.abs(R).max())):
+        if R.size and np.any(np.abs(R.sum(axis=1)) > 1e-12 * (np.abs(R).sum(axis=1) + rowabs) + 1e-300):
             problems.append({"row_sums_after_delete": R.sum(axis=1)})
         if issparse(my_matrix) != issparse(result[0]):
             problems.append("storage kind changed (dense <-> sparse)")
@@ -299,6 +311,8 @@ def run_history(rm, M0, ops, sparse, cls=None, sample=False, label="history"):
     case = {"n": n, "sparse": sparse, "ops": ops, "M0": M0 if n <= 6 else {"digest_only": True}, "M0_rule": label}
     REC.begin_case(case, cls=cls, sample=sample)
     cur = csr_array(M0) if sparse else M0.copy()
+    if sparse == "noncanonical":
+        cur = noncanonical_csr(M0)
     il = None
     part = [[i] for i in range(n)]      # model partition (strict reading)
     Mm = M0.astype(float).copy()        # model matrix
@@ -346,9 +360,14 @@ def run_history(rm, M0, ops, sparse, cls=None, sample=False, label="history"):
                 for b in range(k):
                     S[a, b] = M0[np.ix_(part[a], part[b])].sum()
             offmask = ~np.eye(k, dtype=bool)
-            if R.shape != (k, k) or not np.allclose(R[offmask], S[offmask], rtol=1e-12, atol=1e-9):
+            Sabs = np.zeros((k, k))
+            for a_ in range(k):
+                for b_ in range(k):
+                    Sabs[a_, b_] = np.abs(M0[np.ix_(part[a_], part[b_])]).sum()
+            if R.shape != (k, k) or np.any(np.abs(R - S)[offmask] > 1e-12 * Sabs[offmask] + 1e-300):
                 problems.append({"off_diagonal": R, "sums_over_M0": S})
-            if not np.allclose(np.diag(R), np.diag(Mm), rtol=1e-12, atol=1e-9):
+            rowscale = Sabs.sum(axis=1) + np.abs(M0).sum()
+            if np.any(np.abs(np.diag(R) - np.diag(Mm)) > 1e-12 * rowscale + 1e-300):
                 problems.append({"diagonal": np.diag(R), "operational_rule": np.diag(Mm)})
         if problems:
             REC.fail("C13.history", {"step": step, "op": [kind, arg], "problems": problems})
@@ -357,6 +376,24 @@ def run_history(rm, M0, ops, sparse, cls=None, sample=False, label="history"):
     if effective:
         REC.nontrivial_case()
     return cur, il, part, Mm
+
+
+def noncanonical_csr(M0):
+    """a legal csr array for the same matrix with duplicate stored entries (also on the diagonal) and unsorted column indices"""
+    n = M0.shape[0]
+    data, indices, indptr = [], [], [0]
+    for i in range(n):
+        cols = [j for j in range(n) if M0[i, j] != 0][::-1]            # unsorted
+        for j in cols:
+            v = M0[i, j]
+            if (i + j) % 3 == 0 and float(v) == float(int(v)) and abs(v) >= 2:   # split exactly representable values: a + b
+                data += [1.0, v - 1.0]
+                indices += [j, j]
+            else:
+                data.append(v)
+                indices.append(j)
+        indptr.append(len(data))
+    return csr_array((np.array(data, dtype=float), np.array(indices), np.array(indptr)), shape=(n, n))
 
 
 def pow2_matrix(n):
@@ -401,8 +438,11 @@ def run_random(rm, tr, spec):
     nprng = np.random.default_rng(spec["rseed"])
     for it in range(spec["count"]):
         n = rng.randint(2, 12)
-        kind = rng.choice(["general", "symmetric", "zero_row_sum", "sym_zero_row_sum"])
+        kind = rng.choice(["general", "symmetric", "zero_row_sum", "sym_zero_row_sum", "wide_range", "wide_range"])
         M0 = nprng.integers(-9, 10, size=(n, n)).astype(float)
+        if kind == "wide_range":
+            # rates spanning many orders of magnitude (as SqRA rate matrices do): every stored entry counts, however small
+            M0 = 10.0 ** nprng.uniform(-25, 5, size=(n, n)) * (nprng.random((n, n)) < 0.7)
         if "sym" in kind:
             M0 = M0 + M0.T
         if "zero_row_sum" in kind:
@@ -420,12 +460,24 @@ def run_random(rm, tr, spec):
             ops[0][1] = [[c for c in l if c < n] for l in a0]
             ops[0][1] = [l for l in ops[0][1] if l]
         outs = {}
-        for sparse in (False, True):
-            outs[sparse] = run_history(rm, M0, ops, sparse, cls=[f"random {kind}", f"n={n}"], label=f"random int {kind}")
+        forms = (False, True, "noncanonical") if kind != "wide_range" and it % 3 == 0 else (False, True)
+        for sparse in forms:
+            outs[sparse] = run_history(rm, M0, ops, sparse, cls=[f"random {kind}", f"n={n}", f"storage={sparse}"], label=f"random {kind}")
         a, b = outs[False], outs[True]
+        for other in forms[1:]:
+            b = outs[other]
+            if a is not None and b is not None:
+                part = a[2]
+                k = len(part)
+                tolm = np.zeros((k, k))
+                for a_ in range(k):
+                    for b_ in range(k):
+                        tolm[a_, b_] = np.abs(M0[np.ix_(part[a_], part[b_])]).sum()
+                    tolm[a_, a_] = np.abs(M0[part[a_], :]).sum()       # diagonals went through sums and cancellations of whole rows
+                REC.check("C13.dense_equals_sparse", (same(dense(a[0]), dense(b[0]), tolm) and il_eq(a[1], b[1])) if a[1] is not None else b[1] is None,
+                          {"dense": dense(a[0]), "sparse": dense(b[0]), "storage": str(other)})
+        b = outs[True]
         if a is not None and b is not None:
-            REC.check("C13.dense_equals_sparse", same(dense(a[0]), dense(b[0])) and il_eq(a[1], b[1]) if a[1] is not None else b[1] is None,
-                      {"dense": dense(a[0]), "sparse": dense(b[0])})
             R = dense(a[0])
             if R.size:
                 if "sym" in kind:
